@@ -120,6 +120,52 @@ func (p *Parser) SetRoot(path string) error {
 	return nil
 }
 
+// relToRoot returns path relative to the root directory, the form in which
+// p.root is addressed.
+//
+//	"a.yaml" -> "/foo/bar/a.yaml" @ root "/foo" -> "bar/a.yaml"
+func (p *Parser) relToRoot(path string) (string, error) {
+	abs, err := filepath.Abs(path)
+	if err != nil {
+		return "", err
+	}
+
+	return filepath.Rel(p.rootPath, abs)
+}
+
+// fromRoot is the inverse of relToRoot: the root-relative path rel, spelled
+// absolute or relative to the working directory like the path it came from.
+func (p *Parser) fromRoot(rel, like string) string {
+	abs := filepath.Join(p.rootPath, filepath.FromSlash(rel))
+
+	if filepath.IsAbs(like) {
+		return abs
+	}
+
+	wd, err := os.Getwd()
+	if err != nil {
+		return abs
+	}
+
+	ret, err := filepath.Rel(wd, abs)
+	if err != nil {
+		return abs
+	}
+
+	return ret
+}
+
+// stat is os.Stat beneath the root: existence is decided by what the root
+// contains, never by what a path or symlink leaving it would reach.
+func (p *Parser) stat(path string) (os.FileInfo, error) {
+	rel, err := p.relToRoot(path)
+	if err != nil {
+		return nil, err
+	}
+
+	return p.root.Stat(rel)
+}
+
 // MergeDocument applies the supplied Document to the [Parser]'s current
 // internal document state using bkl's merge semantics. If expand is true,
 // documents without $match will append; otherwise this is an error.
